@@ -661,10 +661,10 @@ type c03Point struct {
 	site string
 	hit  int
 	// second crash, during recovery
-	site2 string
-	hit2  int
-	rnd   time.Duration
-	model *c03Step // the Crash record of the behaviour this point comes from (nil for points taken from the real trace)
+	site2  string
+	hit2   int
+	rnd    time.Duration
+	model  *c03Step // the Crash record of the behaviour this point comes from (nil for points taken from the real trace)
 	model2 *c03Step
 }
 
@@ -752,6 +752,13 @@ func c03Verdict2(w []c03Step, seed int64, dir string, run *c03Run, pt c03Point) 
 // writes and keeps them over a clean restart. onOpenErr, if set, decides about a failing Open (C04 allows some).
 func c03JudgeDir(w []c03Step, seed int64, dir string, ackedOp int, what string, lower map[string][]dbExp, uppers []map[string][]dbExp,
 	onOpenErr func(error) (string, string)) (sig, msg string, recovered c03Contents) {
+	return c03JudgeDirX(w, seed, dir, ackedOp, what, lower, uppers, onOpenErr, false)
+}
+
+// c03JudgeDirX: with durable=true the state the recovering Open left ON DISK is judged too: the directory is copied while
+// the database is open (= what a process kill right after recovery leaves) and the copy must open with the same bounds.
+func c03JudgeDirX(w []c03Step, seed int64, dir string, ackedOp int, what string, lower map[string][]dbExp, uppers []map[string][]dbExp,
+	onOpenErr func(error) (string, string), durable bool) (sig, msg string, recovered c03Contents) {
 	init := w[0]
 	conc := c03Conc(seed, init)
 	opts := c03Options(conc, init)
@@ -811,6 +818,31 @@ func c03JudgeDir(w []c03Step, seed int64, dir string, ackedOp int, what string, 
 			}
 		}
 		return sig, fmt.Sprintf("%s: %s\n  recovered: %s\n  acknowledged: %s", what, msg, c03Fmt(got), c03ExpFmt(conc, acked)), got
+	}
+	if durable {
+		cp := dir + "-killcopy"
+		os.RemoveAll(cp)
+		if err := dbCopyTree(dir, cp); err != nil {
+			return "infra", "copy: " + err.Error(), got
+		}
+		os.Remove(filepath.Join(cp, "lock"))
+		dbk, err := tsdb.Open(cp, nil, nil, opts, nil)
+		if err != nil {
+			os.RemoveAll(cp)
+			return "open-failed-after-recovery", fmt.Sprintf("%s: the directory as the recovering Open left it on disk does not open again: %v", what, err), got
+		}
+		dbk.DisableCompactions()
+		gk, gkC, err := c03Query(dbk)
+		dbk.Close()
+		os.RemoveAll(cp)
+		if err != nil {
+			return "query-error", fmt.Sprintf("%s: query of the on-disk state after recovery failed: %v", what, err), got
+		}
+		for _, g := range []c03Contents{gk, gkC} {
+			if s2, m2 := c03Bounds(conc, g, lower, uppers...); s2 != "" {
+				return "not-durable-after-recovery:" + s2, fmt.Sprintf("%s: the recovered database answered correctly, but the state it left on disk does not (a kill right after recovery): %s\n  on disk: %s", what, m2, c03Fmt(g)), got
+			}
+		}
 	}
 	// the recovered database accepts new writes and keeps them over a clean restart
 	var maxT int64 = math.MinInt64
@@ -927,7 +959,7 @@ func TestVerifC03Crash(t *testing.T) {
 	maxHit := 3
 	nrandom := 0
 	if !verifh.Quick() {
-		budget, maxHit, nrandom = 400, 1 << 30, 6
+		budget, maxHit, nrandom = 400, 1<<30, 6
 	}
 	if v := os.Getenv("C03_BUDGET"); v != "" {
 		budget, _ = strconv.Atoi(v)
@@ -1135,7 +1167,7 @@ func TestVerifC03Crash(t *testing.T) {
 				if sig != "" {
 					c03Report("", sig, fmt.Sprintf("workload %d: %s", j.ci, msg),
 						map[string]any{"workload": cs.W, "crash": j.pt.String(), "seed": seedOf(j.ci), "acked": run.acked, "inflight": run.inflight})
-				} else if j.pt.model != nil && !run.ended && got != nil {
+				} else if j.pt.model != nil && !run.ended && got != nil && run.inflA != "Delete" { // DB.Delete is concurrent inside: no exact prediction
 					// the model's own prediction for this crash point (stronger than the property: drift only)
 					conc := c03Conc(seedOf(j.ci), cs.W[0])
 					if s2, m2 := c03Bounds(conc, got, j.pt.model.Exp, j.pt.model.Exp); s2 != "" && !(run.ended && j.pt.site != "end-of-workload") {
